@@ -119,21 +119,24 @@ def run(ck):
                     sign = (const, tv)                                          # diff + T' < 0  is tv
                 elif rest == T.p_neg(diff) and sign is None and not (
                         ("lt", T.p_neg(f[1])) in (e.facts or {})):
-                    # -diff + c < 0  <=>  diff > c : written the other way round (not a derived fact)
-                    sign = (-const, None)
+                    # -diff + k < 0  <=>  diff > k : the test written the other way round (not a derived fact)
+                    sign = (const, tv, "gt")
+                if sign is not None and len(sign) == 2:
+                    sign = (sign[0], sign[1], "lt")
             if gate is None or sign is None:
                 raise AnalysisError(f"{w}: gate |diff| > T / sign test diff < -T' not recognised on the path "
                                     f"({pa.describe()[:300]})")
-            tprime, tv = sign
-            if tv is None:
-                raise AnalysisError(f"{w}: sign test written as `diff > c`: idiom not recognised")
-            want_tv = (key == "insertion")
-            ok = (tv is want_tv) and 0 <= tprime <= gate
+            tprime, tv, direction = sign
+            # direction 'lt':  (diff < -T') is tv ;  direction 'gt':  (diff > T') is tv.  Under the gate |diff| > T and
+            # 0 <= T' <= T the recorded call has a negative diff exactly when ...
+            negative = tv if direction == "lt" else (not tv)
+            ok = (negative is (key == "insertion")) and 0 <= tprime <= gate
             ck.judge(ok, "C20.2", construct + ":sign", w,
                      "type is 'insertion' exactly when reference gap - query gap is negative "
                      f"(gate T={gate}, test T'={tprime})",
-                     found=f"'{key}' recorded when (diff < -{tprime}) is {tv}",
-                     required=f"'insertion' iff diff < 0, i.e. test true for insertion, 0 <= T' <= T")
+                     found=f"'{key}' recorded when (diff {'<' if direction == 'lt' else '>'} "
+                           f"{'-' if direction == 'lt' else ''}{tprime}) is {tv}",
+                     required="'insertion' iff diff < 0, with 0 <= T' <= T")
     # sibling agreement of the two finders: both are judged slot by slot against the one header table above
     # (a direct term comparison would be a false alarm: one finder keeps the breakage pair in its dictionary, the
     # other re-reads it from the alignment - same roles, different access paths)
